@@ -5,10 +5,9 @@
 //   async_write2(d, d2)     = write_vectored([d, d2]): check_available_space(sum), then buffer or ONE writev of d ++ d2
 //   async_write3(d, d2, d3) = write_vectored([d, d2, d3])
 //   async_write_all(d)      = write_all(d):            loops over async_write; nothing happens for an empty d
-//   async_commit(other)     : ONE device write of (own bytes ++ other's bytes) whenever there are any - UNLIKE the sync
-//                             commit, FuseDevWriter::async_commit has no `if !self.buffered { return Ok(0) }` gate
-//                             (the text of async_commit is put under contract in the same unit: [C20.async_commit.*]);
-//                             VirtioFsWriter::async_commit is the sync commit.
+//   async_commit(other)     : emitted by vx/units/asyncsrv.py (async_commit_model): its contract depends on whether the
+//                             text of FuseDevWriter::async_commit starts with the `if !self.buffered { return Ok(0); }`
+//                             gate of the sync commit.  VirtioFsWriter::async_commit is the sync commit.
 impl<'a, S: BitmapSlice> Writer<'a, S> {
     #[verifier::external_body]
     pub fn async_write(&mut self, data: &[u8]) -> (r: io::Result<usize>)
@@ -78,22 +77,5 @@ impl<'a, S: BitmapSlice> Writer<'a, S> {
                 Err(_) => final(self).unchanged(old(self)),
             },
             old(self).buffered@ && old(self).buf@.len() + data@.len() <= old(self).cap@ ==> r is Ok,
-    { unimplemented!() }
-
-    // NO `buffered` gate (see above): own bytes ++ other's bytes go to the device whenever there are any
-    #[verifier::external_body]
-    pub fn async_commit(&mut self, other: Option<&Writer<'a, S>>) -> (r: io::Result<usize>)
-        requires
-            commit_bytes(old(self), other).len() > 0 ==> old(self).emit_pre_once(), // [once]
-            commit_bytes(old(self), other).len() > 0 ==> may_reply(old(self).id@), // [noreply]
-            commit_bytes(old(self), other).len() > 0 ==> wire_ok(old(self).id@, commit_bytes(old(self), other)), // [frame]
-            commit_bytes(old(self), other).len() > 0 ==> emit_ok(old(self).id@, commit_bytes(old(self), other)), // [emit]
-        ensures
-            final(self).frame_same(old(self)), final(self).buf@ == old(self).buf@,
-            commit_bytes(old(self), other).len() == 0 ==> r == Ok::<usize, io::Error>(0usize) && final(self).emitted@ == old(self).emitted@,
-            commit_bytes(old(self), other).len() > 0 ==> match r {
-                Ok(n) => n == commit_bytes(old(self), other).len() && final(self).emitted@ == old(self).emitted@.push(commit_bytes(old(self), other)),
-                Err(_) => final(self).emitted@ == old(self).emitted@,
-            },
     { unimplemented!() }
 }
